@@ -47,6 +47,7 @@ def main(argv=None):
     pid = a.pid
     t0 = time.time()
     prop = importlib.import_module('props.' + pid)
+    os.environ['PYVC_FOCUS'] = getattr(prop, 'FOCUS', 'all')
     from pyvc import front
     evid_dir = os.path.join(HERE, 'evidence')
     os.makedirs(evid_dir, exist_ok=True)
@@ -69,6 +70,7 @@ def main(argv=None):
     samples = []
     known_hit = []
     inlined = set()
+    used_assumptions = set()
     assumed = set()
     funcs_ok = []
     for r in results:
@@ -82,7 +84,9 @@ def main(argv=None):
             continue
         inlined.update(r['inlined'])
         assumed.update(r['assumed'])
+        used_assumptions.update(r.get('used_assumptions', []))
         nproof = 0
+        nany = 0
         for o in r['obligations']:
             solver_time += o['time']
             if o['kind'] == 'canary':
@@ -91,10 +95,14 @@ def main(argv=None):
                     broken.append('vacuous contract: canary %s is '
                                   'unreachable' % o['name'])
                 continue
+            nany += 1
             want = getattr(prop, 'SELECT', None)
             if want is not None and not want(o['name']):
                 continue
             nproof += 1
+            if o['status'] == 'sat' and match_known(known, o) is not None:
+                known_hit.append((match_known(known, o), o))
+                continue
             n_obl += 1
             if o['status'] == 'unsat':
                 n_dis += 1
@@ -106,15 +114,10 @@ def main(argv=None):
                                     'backend': o['backend'],
                                     'seconds': o['time']})
             elif o['status'] == 'sat':
-                k = match_known(known, o)
-                if k is not None:
-                    known_hit.append((k, o))
-                    n_dis += 0
-                else:
-                    violations.append(o)
+                violations.append(o)
             else:
                 undecided.append('%s: solver unknown' % o['name'])
-        if nproof == 0:
+        if nany == 0:
             broken.append('%s: zero obligations generated' % r['function'])
         funcs_ok.append(r['function'])
 
@@ -206,7 +209,8 @@ def main(argv=None):
             'undecided': undecided, 'broken': broken,
             'stale_known_findings': [k['id'] for k in stale],
         },
-        'assumptions': getattr(prop, 'ASSUMPTIONS', []),
+        'assumptions': getattr(prop, 'ASSUMPTIONS', []) +
+        sorted(used_assumptions),
     }
     with open(os.path.join(evid_dir, pid + '.json'), 'w') as f:
         json.dump(ev, f, indent=1, default=str)
